@@ -202,3 +202,57 @@ pub fn run(prof: Profile, seed: u64, count: usize, out: &str) -> usize {
     tr.out.flush().unwrap();
     count
 }
+
+/// Systematic sweep of (initial size, new size) pairs over the boundary set, both
+/// versions: create a stream of `a` bytes, set_len(b), read it back, remove it.
+/// Shard `k` of `n` takes every n-th pair.
+pub fn resize_sweep(out: &str, shard: usize, nshards: usize) -> usize {
+    let f = File::create(out).unwrap();
+    let mut tr = Tracer { out: BufWriter::new(f), last_img: Vec::new(), step: 0, with_images: true };
+    let sizes: Vec<usize> = crate::gen::SIZES.iter().copied().chain([3072usize, 4608, 6144, 16384]).collect();
+    let mut count = 0;
+    let mut idx = 0;
+    for version in [Version::V3, Version::V4] {
+        for &a in sizes.iter() {
+            for &b in sizes.iter() {
+                idx += 1;
+                if idx % nshards != shard {
+                    continue;
+                }
+                let mut live = match Live::create(version, 4096) {
+                    Ok(l) => l,
+                    Err(_) => continue,
+                };
+                let mode = if version == Version::V4 { "create" } else { "createreopen" };
+                writeln!(tr.out, "H sweep-{}-{}-{} {} 4096 {} {}", if version == Version::V3 { 3 } else { 4 }, a, b,
+                         if version == Version::V3 { "v3" } else { "v4" }, NHANDLES, mode).unwrap();
+                tr.last_img = Vec::new();
+                tr.step = 0;
+                // a neighbour stream so that freed space has somewhere to be observed
+                tr.exec(&mut live, &Op::CreateStream(1, "/n".into()));
+                tr.exec(&mut live, &Op::HWrite(1, vec![0x77; 100]));
+                tr.exec(&mut live, &Op::HDrop(1));
+                tr.exec(&mut live, &Op::CreateStream(0, "/s".into()));
+                let data: Vec<u8> = (0..a).map(|i| ((i * 3 + (i >> 8)) % 255 + 1) as u8).collect();
+                let mut off = 0;
+                while off < data.len() {
+                    let r = tr.exec(&mut live, &Op::HWrite(0, data[off..].to_vec()));
+                    match r.strip_prefix("n:").and_then(|k| k.parse::<usize>().ok()) {
+                        Some(k) if k > 0 => off += k,
+                        _ => break,
+                    }
+                }
+                tr.exec(&mut live, &Op::HSetLen(0, b as u64));
+                tr.exec(&mut live, &Op::HDrop(0));
+                tr.exec(&mut live, &Op::Cat("/s".into()));
+                tr.exec(&mut live, &Op::EntryOf("/s".into()));
+                tr.exec(&mut live, &Op::RemoveStream("/s".into()));
+                tr.exec(&mut live, &Op::Cat("/n".into()));
+                writeln!(tr.out, "E").unwrap();
+                count += 1;
+            }
+        }
+    }
+    tr.out.flush().unwrap();
+    count
+}
